@@ -261,6 +261,10 @@ class Stm:
         return self.data
 
 
+# content streams placed before the one that holds the inline image (a page's /Contents may be an array): (streams, number of tokens they hold)
+INLINE_PRE = [([], 0), ([b"q "], 1), ([b"0 " * 40], 40), ([b"q", b" Q "], 2), ([b"", b"1 2 3 "], 3)]
+
+
 def h4_inline(n=2, timeout=150, part=None, **kw):
     shims = _setup_inline()
     import pdfminer.pdfinterp as pi
@@ -283,8 +287,10 @@ def h4_inline(n=2, timeout=150, part=None, **kw):
         if eol == b"\r\n" and n:
             pass
         content = SBy(list(b"BI /W 1 /H 1 /BPC 8 /CS /G ID ")) + data + eol + b"EI\n 7 Tc (x) Tj"
-        info = {"content": content, "data": data}
-        p = pi.PDFContentParser([Stm(content)])
+        pre_i = ex.choice(len(INLINE_PRE), "pre")
+        pre, npre = INLINE_PRE[pre_i]
+        info = {"content": content, "data": data, "pre": pre_i}
+        p = pi.PDFContentParser([Stm(x) for x in pre] + [Stm(content)])
         objs = []
         try:
             while True:
@@ -295,8 +301,8 @@ def h4_inline(n=2, timeout=150, part=None, **kw):
             raise
         except Exception as e:
             ex.require(False, "PDFContentParser raised %s: %s" % (type(e).__name__, e), **info)
-        ex.require(len(objs) == 6, "expected image, EI, 7, Tc, (x), Tj - got %d objects" % len(objs), **info)
-        strm, ei, num, tc, s, tj = objs
+        ex.require(len(objs) == npre + 6, "expected %d tokens of the earlier streams, then image, EI, 7, Tc, (x), Tj - got %d objects" % (npre, len(objs)), **info)
+        strm, ei, num, tc, s, tj = objs[npre:]
         ex.require(isinstance(strm, pt.PDFStream), "no inline image stream", **info)
         raw = SBy.of(strm.rawdata)
         ex.require(len(raw) == n, "captured %d bytes of inline data, %d were written" % (len(raw), n), **info)
@@ -305,9 +311,9 @@ def h4_inline(n=2, timeout=150, part=None, **kw):
                    "the operators after the inline image are not read as if the image were not there", **info)
 
     def conc(m, info):
-        return {"content": sbytes.model_bytes(m, info["content"]), "data": sbytes.model_bytes(m, info["data"])}
+        return {"content": sbytes.model_bytes(m, info["content"]), "data": sbytes.model_bytes(m, info["data"]), "pre": info["pre"]}
     return core.run_symx("H4_inline", fn, [pi.PDFContentParser.get_inline_data, pi.PDFContentParser.do_keyword],
-                         {"data_bytes": n, "byte_values": "0..255 minus the end marker", "eol_before_EI": "LF / CRLF"}, timeout, concretize=conc, shims=shims, part=part,
+                         {"data_bytes": n, "byte_values": "0..255 minus the end marker", "eol_before_EI": "LF / CRLF", "earlier content streams": [x for x, _ in INLINE_PRE]}, timeout, concretize=conc, shims=shims, part=part,
                          int_lo=-16, int_hi=1023)
 
 
@@ -376,7 +382,8 @@ def replay(harness, inp):
         import pdfminer.pdfinterp as pi
         import pdfminer.pdftypes as pt
         import pdfminer.psparser as ps
-        p = pi.PDFContentParser([pt.PDFStream({}, inp["content"])])
+        pre, npre = INLINE_PRE[inp.get("pre", 0)]
+        p = pi.PDFContentParser([pt.PDFStream({}, x) for x in pre] + [pt.PDFStream({}, inp["content"])])
         objs = []
         try:
             while True:
@@ -385,6 +392,11 @@ def replay(harness, inp):
             pass
         except Exception as e:
             return "content stream %r raised %r" % (inp["content"], e)
+        desc = inp["content"]
+        if pre:
+            desc = "%r preceded by streams %r" % (inp["content"], pre)
+        objs = objs[npre:]
+        inp = dict(inp, content=desc)
         if not objs or not isinstance(objs[0], pt.PDFStream):
             return "content stream %r: no inline image, objects %r" % (inp["content"], objs)
         if objs[0].rawdata != inp["data"]:
